@@ -4,7 +4,7 @@ import common
 
 PROPS = "RotoV.Props.C15"
 MODULES = ["RotoV.Lemmas.ListCap", "RotoV.Lemmas.ListRaw", "RotoV.Lemmas.ListInv", "RotoV.Lemmas.ListRefine", "RotoV.Lemmas.ListNested",
-           "RotoV.Lemmas.ListJoin", "RotoV.Lemmas.ListFor", "RotoV.Lemmas.ListSelfEq", "RotoV.Lemmas.ListIter",
+           "RotoV.Lemmas.ListJoin", "RotoV.Lemmas.ListFor", "RotoV.Lemmas.ListSelfEq", "RotoV.Lemmas.ListIter", "RotoV.Lemmas.ListBind", "RotoV.Model.ListBind", "RotoV.Model.ListBindBase",
            "RotoV.Model.ListM", "RotoV.Model.ListBase", "RotoV.Model.ListFor", "RotoV.Model.ListIter"]
 
 
@@ -19,7 +19,7 @@ def search(ctx):
 
 
 def run(ctx):
-    ctx.extract(["capacity", "listlocks", "listguards", "listjoin", "listfor", "listiter"])
+    ctx.extract(["capacity", "listlocks", "listguards", "listjoin", "listfor", "listiter", "listbind"])
     ctx.prove(PROPS, extra_modules=MODULES)
     if ctx.build_harness("c15"):
         ctx.harness("c15", ["run", ctx.seed, ctx.tier], timeout=3000)
@@ -40,6 +40,10 @@ def run(ctx):
         "a Rust-side iterator is RotoV.ListM.istep over the decisions generated from IntoIterator for List<A> / IntoIter::next "
         "(target listiter); `?` on List::get's None ends next without touching the index; the iterator's handle is a handle "
         "variable no other operation names; size_hint is not modelled",
+        "the script bindings of impl ErasedList are the rows of Gen.ListBind.bindings (target listbind: the one list function the body "
+        "calls, positions of the binding's own parameters among its arguments, casts, result conversion; NonNull::new_unchecked(p.0), &p, "
+        "out.ptr.cast(), `let x = p;` are the parameter p); an `as` cast to an integer type keeps the low bits (castTo); ffi::list_get "
+        "is the model's get (its body is tied by the script correspondence only)",
     ]
     return ctx.finish(
         level="proof",
@@ -65,7 +69,8 @@ def run(ctx):
              "(`in:k:h` = h.clone().into_iter(), `ix:k` = next(), `id:k` = drop; two at once) against cursors into the shared "
              "vectors and against RotoV.ListM.istep: growth through a Rust alias / a script during the walk, a walk that starts "
              "empty, next after None, an iterator outliving every handle, swap / rebinding under two iterators, growth across a "
-             "reallocation — class representatives first, 5 letters of the exhaustive alphabets, a third of the random histories",
+             "reallocation — class representatives first, 5 letters of the exhaustive alphabets, a third of the random histories. "
+             "The number a capacity() call returns (Rust or script) must be the capacity the same list reports right after it",
         search=search,
     )
 
